@@ -116,6 +116,26 @@ def conds(prog: Program, fi: FuncInfo, node: ast.AST) -> List[Cond]:
     return [c for c in prog.conditions(fi, node) if c.kind not in ("for", "try", "with", "handler")]
 
 
+def may_conds(prog: Program, fi: FuncInfo, node: ast.AST) -> List[Cond]:
+    """Every branch decision the execution of `node` depends on (transitive control
+    dependence), whether or not it holds on all paths: empty means the node runs
+    whenever the function runs to completion.  Use this for 'unconditional' rules;
+    use conds() for facts that must hold when the node executes."""
+    return prog.conditions(fi, node, universal=False)
+
+
+def is_early_exit_guard(prog: Program, fi: FuncInfo, c: Cond) -> bool:
+    """c is the test of an `if <test>: return/raise/continue` guard (the node runs when
+    the guard does NOT fire): such a condition restricts when the function / loop body
+    does anything at all, not what it does."""
+    for n in A.body_nodes(fi.node):
+        if isinstance(n, ast.If) and n.test is c.test and not n.orelse and n.body and isinstance(n.body[-1], (ast.Return, ast.Raise, ast.Continue)):
+            return c.polarity is False
+    if c.kind == "assert":
+        return True
+    return False
+
+
 def cond_texts(prog: Program, fi: FuncInfo, node: ast.AST) -> List[str]:
     return [f"{'' if c.polarity is True else 'not ' if c.polarity is False else str(c.polarity) + ' '}{T(c.test, 60)}" for c in conds(prog, fi, node)]
 
